@@ -108,6 +108,19 @@ struct checker {
                         if (pt::id_of(cd(x, y)) != s.at(sx, sy)) { vh::viol(key("const-conversion-identity"), vh::cat("word=", m.word(), " const_t(view)(", x, ",", y, ")")); break; }
                     }
         }
+        // a derived view assigned to (not initialised from) and swapped with another view object is the same mapping
+        {
+            W a; a = d;
+            W b(a), c; using std::swap; swap(b, c);
+            if (c.width() != m.w || c.height() != m.h || b.width() != 0 || b.height() != 0) vh::viol(key("assign-swap-dims"), vh::cat("word=", m.word()));
+            else
+                for (long y = 0; y < m.h; ++y)
+                    for (long x = 0; x < m.w; ++x) {
+                        long sx, sy; m.map(x, y, sx, sy);
+                        ++n_pix;
+                        if (pt::id_of(a(x, y)) != s.at(sx, sy) || pt::id_of(c(x, y)) != s.at(sx, sy)) { vh::viol(key("assign-swap-identity"), vh::cat("word=", m.word(), " assigned/swapped view at (", x, ",", y, ")")); break; }
+                    }
+        }
         channels(d, m, std::integral_constant<bool, homogeneous_bytes>());
     }
 
@@ -405,6 +418,7 @@ struct vchecker {
     }
     template <class CV, class F> void adapt_all(CV const& cv, mapping const& m, const char* what, F want) {
         chk_adapt(cv, m, what, want);
+        { CV a; a = cv; chk_adapt(a, m, what, want); }
         typename CV::const_t ccv(cv);
         chk_adapt(ccv, m, what, want);
         { mapping n = m; n.push(OP_FLIPLR); chk_adapt(gil::flipped_left_right_view(cv), n, what, want); }
@@ -433,6 +447,18 @@ struct vchecker {
                 if (p[0] != ox + stx * sx + 1000 || p[1] != oy + sty * sy + 2000)
                     vh::viol("identity.virtual", vh::cat("word=", m.word(), " derived(", x, ",", y, ") yields position (", (long)p[0] - 1000, ",", (long)p[1] - 2000, ") expected (", ox + stx * sx, ",", oy + sty * sy, ")"));
             }
+        {   // assignment and swap of views over virtual locators keep origin and step
+            W a; a = d;
+            W b(a), c; using std::swap; swap(b, c);
+            bool ok = (c.width() == m.w && c.height() == m.h);
+            for (long y = 0; ok && y < m.h; ++y)
+                for (long x = 0; ok && x < m.w; ++x) {
+                    gil::rgb16_pixel_t p = d(x, y), pa = a(x, y), pc = c(x, y);
+                    ++n_pix;
+                    if (!(pa == p) || !(pc == p)) ok = false;
+                }
+            if (!ok) vh::viol("assign-swap.virtual", vh::cat("word=", m.word(), " a view assigned from / swapped with this view does not yield the same pixels"));
+        }
         adaptors(d, m);
     }
     // the closure of view types under the transformations is finite (transposed toggles one flag),
